@@ -32,6 +32,8 @@ def cases():
         ("transpose", lambda be: be.transpose(X(), (1, 2, 0)), lambda np_, I: np_.transpose(I["PX"], (1, 2, 0))),
         ("moveaxis", lambda be: be.moveaxis(X(), 2, 0), lambda np_, I: np_.moveaxis(I["PX"], 2, 0)),
         ("moveaxis", lambda be: be.moveaxis(X(), 0, -1), lambda np_, I: np_.moveaxis(I["PX"], 0, -1)),
+        ("moveaxis", lambda be: be.moveaxis(X(), [0, 1], [-1, -2]), lambda np_, I: np_.moveaxis(I["PX"], [0, 1], [-1, -2])),
+        ("moveaxis", lambda be: be.moveaxis(X(), [2, 0], [0, 1]), lambda np_, I: np_.moveaxis(I["PX"], [2, 0], [0, 1])),
         ("reshape", lambda be: be.reshape(be.transpose(X(), (2, 0, 1)), (c, -1)), lambda np_, I: np_.reshape(np_.transpose(I["PX"], (2, 0, 1)), (I["PX"].shape[2], -1))),
         ("dot", lambda be: be.dot(X(), M()), lambda np_, I: np_.dot(I["PX"], I["PM"])),
         ("dot", lambda be: be.dot(X(), V()), lambda np_, I: np_.dot(I["PX"], I["PV"])),
